@@ -4,6 +4,7 @@ import gzip
 import io
 import itertools
 import os
+import re
 import pickle
 import shutil
 import tarfile
@@ -548,3 +549,77 @@ def run_c20(tier="quick", seed=0):
     finally:
         shutil.rmtree(tmp, ignore_errors=True)
     return {"cases": cases, "problems": problems}
+
+
+# ----------------------------------------------------------------------------------------------------------- C12: deep linear trees
+
+
+def run_c12_deep_trees(tier="quick", seed=0, depths=(300, 1100)):
+    """The three commands on a one-entry trace holding a linear tree (every clone the only child of the previous one).
+    Returns one record per (depth, command): exception type name or None, and table problems when the command completed."""
+    import tempfile
+
+    from phyclone.data.base import DataPoint
+    from phyclone.process_trace.process_trace import write_consensus_results, write_map_results, write_topology_report
+    from phyclone.tree import Tree
+
+    import sys
+
+    out = []
+    rng = np.random.default_rng(seed + 11)
+    limit = sys.getrecursionlimit()
+    sys.setrecursionlimit(1000)  # CPython's default: the scenario is stated for the interpreter as the commands are run
+    try:
+        _deep_trees(out, rng, depths)
+    finally:
+        sys.setrecursionlimit(limit)
+    return out
+
+
+def _deep_trees(out, rng, depths):
+    import tempfile
+
+    from phyclone.data.base import DataPoint
+    from phyclone.process_trace.process_trace import write_consensus_results, write_map_results, write_topology_report
+    from phyclone.tree import Tree
+
+    for n in depths:
+        data = [DataPoint(i, rng.normal(size=(1, 5)), name="m%04d" % i) for i in range(n)]
+        tree = Tree(data[0].grid_size)
+        prev = []
+        for d in data:
+            prev = [tree.create_root_node(children=prev, data=[d])]
+        tree.relabel_nodes()
+        with tempfile.TemporaryDirectory() as tmp:
+            trace = os.path.join(tmp, "deep.pkl.gz")
+            write_trace(make_results({0: [(tree, -1.0)]}, data, ["S"]), trace)
+            tab, nwk, arch = os.path.join(tmp, "o.tsv"), os.path.join(tmp, "o.nwk"), os.path.join(tmp, "a.tar.gz")
+            commands = [
+                ("map", lambda: write_map_results(trace, tab, nwk)),
+                ("consensus", lambda: write_consensus_results(trace, tab, nwk)),
+                ("consensus-counts", lambda: write_consensus_results(trace, tab, nwk, weight_type="counts")),
+                ("topology-report", lambda: write_topology_report(trace, os.path.join(tmp, "top.tsv"), topologies_archive=arch)),
+            ]
+            for name, cmd in commands:
+                rec = {"clones": n, "command": name, "exception": None, "problems": []}
+                for f in (tab, nwk):
+                    if os.path.exists(f):
+                        os.remove(f)
+                try:
+                    quiet(cmd)
+                except BaseException as e:  # noqa - RecursionError is the recorded finding, anything else is reported as it is
+                    rec["exception"] = type(e).__name__
+                    rec["text"] = str(e)[:200]
+                if rec["exception"] is None and name != "topology-report":
+                    header, rows = read_table(tab)
+                    newick = open(nwk).read().strip()
+                    names = sorted(r["mutation_id"] for r in rows)
+                    if names != sorted(d.name for d in data):
+                        rec["problems"].append("mutations of the table differ from the input")
+                    labels = re.findall(r"[^(),;\s]+", newick)  # no recursive parser here: the tree is as deep as it has clones
+                    if any(r["clone_id"] not in set(labels) for r in rows):
+                        rec["problems"].append("clone id that is not a node of the Newick tree")
+                    if len(labels) != n + 1:
+                        rec["problems"].append("Newick tree has %d nodes, expected %d" % (len(labels), n + 1))
+                out.append(rec)
+    return out
